@@ -356,6 +356,15 @@ impl Ord for TieTok {
     }
 }
 
+/// A 136-byte item (wider than a cache line).
+pub struct Wide(pub Tok, pub [u64; 12]);
+
+impl Wide {
+    pub fn new(t: Tok) -> Wide {
+        Wide(t, [0; 12])
+    }
+}
+
 /// A 64 KiB item: byte-size thresholds (chunk buffers, per-worker vectors) are reached with few elements.
 pub struct Big(pub Tok, pub [u64; 8186]);
 
